@@ -511,7 +511,9 @@ func (t *timeTicker) Stop() {
 func (t *timeTicker) Next(now time.Time) time.Time {
 	next := now.Add(t.every)
 	if t.align {
-		next = next.Round(t.every)
+		// The next multiple of every after now, as the live ticker produces it.
+		// Rounding skips a tick whenever now is in the second half of an interval.
+		next = next.Truncate(t.every)
 	}
 	return next
 }
